@@ -32,12 +32,13 @@ CHECKS = {
              "these, 'nothing is routed to an unregistered object' follows for every history; behaviour not determined by the tables is not decided.",
         ref="DESIGN.md section 3 C12"),
     "C14": dict(
-        technique="finite-domain evaluation of state guards against the JSEP table; must-event (dominance) analysis for validate-before-mutate; call-graph may-write sets",
+        technique="finite-domain evaluation of state guards against the JSEP table; bounded enumeration of call sequences through the interpreted negotiation methods against that table; must-event (dominance) analysis for validate-before-mutate; call-graph may-write sets",
         text="Decides the guard table (24 cells + createAnswer + closed latch), the next-state literals, that every write to signalingState and "
              "the four description slots is dominated by __validate_description (and nothing called earlier may write them), that the m-line "
              "match is order-sensitive, that close() latches and sets signalingState to closed before suspending, the description-slot updates per type, and that the per-section structural checks reject "
              "defective audio / video / application sections alike whatever the connection has been through before (history domain over the fields the check reads), that the "
-             "RTCSessionDescription constructor accepts exactly the four SDP types, and which of createOffer / createAnswer the implicit setLocalDescription() calls in each state. These determine the state machine for all call sequences "
+             "RTCSessionDescription constructor accepts exactly the four SDP types, and which of createOffer / createAnswer the implicit setLocalDescription() calls in each state; in addition every call sequence up to length 3 (quick) / 4 (thorough) over 13 actions of the property's alphabet "
+             "is driven through the real methods (interpreted at the AST level, stand-in transports, descriptions of the peer manufactured by helper connections) and compared with the JSEP table, refused calls leaving state and slots identical (C14-SIM). These determine the state machine for all call sequences "
              "over the property's alphabet; pranswer/rollback and side effects outside the five slots are not decided.",
         ref="DESIGN.md section 3 C14"),
 }
@@ -98,7 +99,7 @@ CHECKS["C18"] = dict(
     technique="data-dependence and guard (must-event) rules, serial qualifier analysis, grid evaluation of fraction_lost against RFC 3550 A.3, interval analysis of the packed report fields",
     text="Decides: the reported highest sequence includes wrap cycles and the cycle counter accumulates and only advances for in-order packets; timestamp differences are reduced "
          "modulo 2^32; fraction_lost equals the RFC formula on a grid incl. duplicates/late arrivals; packets_lost, highest_sequence, jitter and lsr provably fit "
-         "their RTCP fields; dlsr is 0 or the scaled delay and within 32 bits on a grid of delays; StreamStatistics equals an RFC 3550 reference on enumerated packet sequences (losses, duplicates, late copies of the newest packet, wraps) and the report block _run_rtcp builds from it carries those values through serialise / parse; statistics are fed with the packet as it arrived (before the RTX unwrap). Numeric equality over histories is not decided.",
+         "their RTCP fields; dlsr is 0 or the scaled delay and within 32 bits on a grid of delays; StreamStatistics equals an RFC 3550 reference on enumerated packet sequences (losses, duplicates, late copies of the newest packet, wraps) and the report block _run_rtcp builds from it carries those values through serialise / parse; statistics are fed with the packet as it arrived (before the RTX unwrap); fraction_lost is read per interval from objects fed through add() (black box), also while the cumulative loss passes 2^23 and the arrival clock crosses a multiple of 2^32 ticks; a reporting round with 1 to 300 remote streams sends every report block once in packets of at most 31 blocks that parse back. Numeric equality over all histories is not decided.",
     ref="DESIGN.md section 3 C18")
 
 CHECKS["C01"] = dict(
@@ -158,14 +159,16 @@ CHECKS["C09"] = dict(
     ref="DESIGN.md section 3 C09")
 
 CHECKS["C03"] = dict(
-    technique="finite-domain evaluation of the direction algebra, role assignments and codec/header-extension intersection (ast evaluated by the checker's interpreter); scope (binding-provenance), mirror (path-count) and guard-latch rules over the negotiation methods",
+    technique="finite-domain evaluation of the direction algebra, role assignments and codec/header-extension intersection (ast evaluated by the checker's interpreter); whole-exchange evaluation of the negotiation methods over enumerated configuration pairs with an oracle on the produced SDP text; scope (binding-provenance), mirror (path-count) and guard-latch rules over the negotiation methods",
     text="Decides: and/or/reverse_direction equal capability intersection/union/swap and their composition gives complementary current directions for all 16 pairs; "
          "negotiated transceiver state is only read for transceivers selected through the description; createAnswer appends exactly one section per remote section on "
          "every path, looked up by the remote mid, and BUNDLE lists the mids in order; find_common_codecs/header_extensions select only offered entries with the offerer's "
          "payload types/ids on boundary scenarios (96, 127, static, RTX/base pairs, H264 profiles); the ICE role is assigned once per transport; bundling moves each object once (guard + latch); DTLS roles are definite and "
          "complementary; description slots are updated per type; RTCIceTransport.start() returns only after the connection attempt (its own or the one in progress) is over and __connect() orders ICE, DTLS "
          "and media starts; every remote offer records the offered direction (first offer, re-offer, swapped offerer); the BUNDLE step evaluated on object graphs puts every member on the primary's transport for "
-         "every creation order and stops exactly the unused transports. It does not decide that every configuration negotiates and connects.",
+         "every creation order and stops exactly the unused transports; whole offer/answer exchanges (79 quick / about 170 thorough configuration pairs incl. follow-up negotiations) driven through the real "
+         "negotiation methods interpreted at the AST level with stand-in transports end stable/stable with mirrored sections, offered codecs / payload types / extension ids only, complementary "
+         "directions equal to the intersection of both sides' wishes, definite opposite DTLS roles and one transport per bundle (C03-SIM). It does not decide configurations outside the enumeration, nor that the session connects.",
     ref="DESIGN.md section 3 C03")
 
 CHECKS["C02"] = dict(
